@@ -2,6 +2,8 @@ import JT.Props.C07
 import JT.Props.C08
 import JT.Props.C02
 import JT.Proof.AttStream
+import JT.Proof.FrameChecked
+import JT.Proof.Codec2
 /-!
 # C03 — decoders are total functions of their input
 
@@ -47,5 +49,31 @@ out-of-range access on any body -/
 theorem attachment_control_no_panic (b : Bytes) :
     AttStream.parse1211 b ≠ .panic ∧ ∀ dl, AttStream.parse1210 dl b ≠ .panic :=
   ⟨AttStream.parse1211_ne_panic b, fun dl => AttStream.parse1210_ne_panic dl b⟩
+
+/-- **Every memory access of `Header.decode` and of the tail of `JTMessage.Decode` is in range**: the decoder written
+with checked accesses (`data[a:b]`, `data[i]`, `BigEndian.Uint16(data[a:b])` yield `panic` where Go would) is the same
+function as the model used everywhere else, and has no panic outcome — on every byte string. -/
+theorem frame_decoder_accesses_in_range (p : Bytes) :
+    Frame.decodePlainC p = Frame.decodePlain p ∧ Frame.decodePlainC p ≠ .panic :=
+  ⟨Frame.decodePlainC_eq p, Frame.decodePlainC_ne_panic p⟩
+
+/-- fifteen more decoders written with checked accesses (`JT/Model/Codec2.lean`): none has a panic outcome on any body,
+for every protocol version and every active-safety dialect. (`T0x0100.Parse` needs the version to be one of the three
+the header decoder can produce: with the zero value neither length guard applies — `parseT0x0100_panic_ver0` — which
+only a hand-built message can reach.) -/
+theorem more_decoders_no_panic (b : Bytes) :
+    Codec2.parseT0x0002 b ≠ .panic ∧ Codec2.parseP0x8104 b ≠ .panic ∧ Codec2.parseP0x9003 b ≠ .panic ∧
+    (∀ ver, Codec2.parseT0x0102 ver b ≠ .panic) ∧
+    (∀ ver, ver = 1 ∨ ver = 2 ∨ ver = 3 → Codec2.parseT0x0100 ver b ≠ .panic) ∧
+    Codec2.parseP0x8100 b ≠ .panic ∧ Codec2.parseP0x9101 b ≠ .panic ∧ Codec2.parseP0x9201 b ≠ .panic ∧
+    Codec2.parseP0x9206 b ≠ .panic ∧ Codec2.parseT0x1205 b ≠ .panic ∧ Codec2.parseP0x9205 b ≠ .panic ∧
+    Codec2.parseP0x9202 b ≠ .panic ∧ Codec2.parseP0x8801 b ≠ .panic ∧ Codec2.parseT0x1005 b ≠ .panic ∧
+    (∀ dl, Codec2.parseP0x9208 dl b ≠ .panic) :=
+  ⟨Codec2.parseT0x0002_ne_panic b, Codec2.parseP0x8104_ne_panic b, Codec2.parseP0x9003_ne_panic b,
+   fun v => Codec2.parseT0x0102_ne_panic v b, fun v hv => Codec2.parseT0x0100_ne_panic v hv b,
+   Codec2.parseP0x8100_ne_panic b, Codec2.parseP0x9101_ne_panic b, Codec2.parseP0x9201_ne_panic b,
+   Codec2.parseP0x9206_ne_panic b, Codec2.parseT0x1205_ne_panic b, Codec2.parseP0x9205_ne_panic b,
+   Codec2.parseP0x9202_ne_panic b, Codec2.parseP0x8801_ne_panic b, Codec2.parseT0x1005_ne_panic b,
+   fun dl => Codec2.parseP0x9208_ne_panic dl b⟩
 
 end JT.C03
